@@ -38,7 +38,7 @@ var hostileTexts = []string{
 
 func init() {
 	register("C01", func(c *engine.Ctx) {
-		c.Rule = "random schemas over all supported features x random option sets (--extra-imports, --only-models, --min-sized-ints, --tags, --capitalization, --struct-name-from-title), systematic feature pairs (constraint kind x position x nullable x default x format), and hostile free text (newlines, quotes, comment terminators, backslashes, %, 300-character words, U+2028, backticks) in descriptions and titles; every emitted file must be accepted by go/format (and be a fixed point of it), produce no 'could not be formatted' warning, parse, and compile against exactly its declared imports in a batch go build. A compile failure is tolerated only when the model predicted it AND its class is a listed known finding; the model's predicted import set and declaration summary are diffed against go/ast. Distinct = distinct (stream, option set, outcome, schema shape)."
+		c.Rule = "random schemas over all supported features x random option sets (--extra-imports, --only-models, --min-sized-ints, --tags, --capitalization, --struct-name-from-title), systematic feature pairs (constraint kind x position x nullable x default x format), and hostile free text (newlines, quotes, comment terminators, backslashes, %, 300-character words, U+2028, backticks) in descriptions and titles, and distinct but structurally equal declarations (a string enum listing a member twice at property / definition / items position; two property paths with the same scope name, each an anyOf / allOf over the same $refs); every emitted file must be accepted by go/format (and be a fixed point of it), produce no 'could not be formatted' warning, parse, and compile against exactly its declared imports in a batch go build. A compile failure is tolerated only when the model predicted it AND its class is a listed known finding; the model's predicted import set and declaration summary are diffed against go/ast. Distinct = distinct (stream, option set, outcome, schema shape)."
 		c.Proofs([]string{"GJS.Props.C01"}, []string{
 			"GJS.Props.C01.addImport_imports", "GJS.Props.C01.addImport_mono", "GJS.Props.C01.addImport_idempotent",
 			"GJS.Props.C01.string_validator_imports_regexp", "GJS.Props.C01.numeric_validator_only_if_it_emits", "GJS.Props.C01.shadowName_differs",
@@ -122,6 +122,35 @@ func init() {
 			pc := baseCase("c01-shadow-names", schema, nil, rootName)
 			pc.Cfg.RootType = rootName
 			pcs = append(pcs, pc)
+		}
+		// (e) distinct but structurally equal declarations (Package.AddDecl keeps one): a string enum that lists a
+		// member twice; two property paths with the same scope name, each an anyOf / allOf over the same $refs
+		for _, pos := range []string{"property", "definition", "items"} {
+			en := sgen.M{"type": "string", "enum": []any{"pending", "shipped", "delivered", "pending"}}
+			var schema sgen.M
+			switch pos {
+			case "property":
+				schema = sgen.M{"type": "object", "properties": sgen.M{"status": en}}
+			case "definition":
+				schema = sgen.M{"type": "object", "properties": sgen.M{"status": sgen.M{"$ref": "#/$defs/Status"}}, "$defs": sgen.M{"Status": en}}
+			case "items":
+				schema = sgen.M{"type": "object", "properties": sgen.M{"status": sgen.M{"type": "array", "items": en}}}
+			}
+			for _, yaml := range []bool{false, true} {
+				pc := baseCase("c01-equal-declarations", schema, nil, "repeated-enum-member", pos)
+				pc.Cfg.ExtraImports = yaml
+				pcs = append(pcs, pc)
+			}
+		}
+		for _, kw := range []string{"anyOf", "allOf"} {
+			a := sgen.M{"type": "object", "properties": sgen.M{"a": sgen.M{"type": "integer"}}, "required": []any{"a"}}
+			b := sgen.M{"type": "object", "properties": sgen.M{"b": sgen.M{"type": "string"}}, "required": []any{"b"}}
+			comp := func() sgen.M { return sgen.M{kw: []any{sgen.M{"$ref": "#/$defs/A"}, sgen.M{"$ref": "#/$defs/B"}}} }
+			schema := sgen.M{"type": "object", "properties": sgen.M{"x": sgen.M{"$ref": "#/$defs/FooBar"}, "y": sgen.M{"$ref": "#/$defs/Foo"}},
+				"$defs": sgen.M{"A": a, "B": b,
+					"FooBar": sgen.M{"type": "object", "properties": sgen.M{"baz": comp()}},
+					"Foo":    sgen.M{"type": "object", "properties": sgen.M{"barBaz": comp()}}}}
+			pcs = append(pcs, baseCase("c01-equal-declarations", schema, nil, "same-scope-"+kw))
 		}
 		res := runCases(c, pcs)
 		fails := 0
